@@ -143,6 +143,22 @@ func Wr[T any](p *T, site string) *T {
 	return p
 }
 
+// Append records the write that append(s, ...) makes into s's own array when it has room (the slot
+// behind the last element; appends that have to grow copy into a fresh array and write nothing
+// shared) and returns s. Two goroutines appending in place to views of one array write the same slot.
+func Append[S ~[]T, T any](s S, site string) S {
+	if cap(s) > len(s) {
+		p := &s[:len(s)+1][len(s)]
+		if escapeOn {
+			escapeSink = unsafe.Pointer(p)
+		}
+		if st := cur.Load(); st != nil {
+			st.access(uintptr(unsafe.Pointer(p)), true, site)
+		}
+	}
+	return s
+}
+
 // RdMap / WrMap record an access to a map object (map granularity, like Go's
 // race detector) and return the map.
 func RdMap[M any](m M, site string) M {
